@@ -27,6 +27,7 @@ RULES_DOC.update({
     "R4": "a non-NULL joiner is woken by exactly one mechanism; exit and resume_joiner agree on the external-joiner test",
     "R5": "free routines: join -> free -> handle = NULL; thread_free: unset pool <= 1, ktable_free <= 1, mem_free_thread == 1",
     "R6": "ABTI_thread_terminate: exactly one release-store of TERMINATED; freed iff unnamed; nothing after the store for named units",
+    "R7": "the *_many routines join (and free) every non-NULL handle of the array: the per-element call depends only on the loop and the NULL test of that element, and nothing leaves the loop early",
 })
 VARIANTS = ["active_wait", "no_ext_thread", "no_linux_futex", "tool_interface"]
 T = "src/thread.c"
@@ -567,6 +568,25 @@ def rule_R6(P, rep):
            str(labels), loc=F.file, site="thread_terminate/named-test")
 
 
+def rule_R7(P, rep):
+    from abtverif import ctrldep
+    n = 0
+    for fn, callees in (("ABT_thread_join_many", ("thread_join",)), ("ABT_thread_free_many", ("thread_join", "ABTI_thread_free"))):
+        F = P.fn(fn, T)
+        for callee in callees:
+            sites = [i for _b, i in F.calls(callee)]
+            rep.need(len(sites) == 1, "%s calls %s %d times" % (fn, callee, len(sites)))
+            # the element is the work-unit argument (last pointer argument of the callee)
+            i = sites[0]
+            nd = F.nodes[i]
+            elem = nd["a"][-1]
+            bad, head = ctrldep.per_element(F, i, sites, elem=elem)
+            n += 1
+            rep.ob("R7", "%s: %s runs for every non-NULL handle of the array" % (fn, callee), not bad and head is not None,
+                   "; ".join(bad) if bad else "not inside a loop over the array", loc=F.loc(i), site="%s/%s/per-element" % (fn, callee))
+    rep.need(n >= 3, "only %d per-element call sites" % n)
+
+
 def run(P, rep, tier):
     common.run_shared(P, rep, which=("X1",))
     rule_R1(P, rep)
@@ -574,3 +594,4 @@ def run(P, rep, tier):
     rule_R3_R4(P, rep)
     rule_R5(P, rep)
     rule_R6(P, rep)
+    rule_R7(P, rep)
